@@ -24,6 +24,16 @@ class MachineryError(Exception):
     pass
 
 
+class CodeFault(Exception):
+    """Raised by a harness helper when the code under test, on a legal public call, leaves an object the check cannot
+    go on with (e.g. a constructed model whose parameters do not have the shapes of the requested architecture).
+    That is a verdict about the code, not a failure of the machinery: main.py records it as a violation."""
+
+    def __init__(self, key, detail):
+        super().__init__("%s: %s" % (key, detail))
+        self.key, self.detail = key, detail
+
+
 def import_qucumber():
     """Import qucumber from $VERIF_REPO's current working tree (pure Python, so a
     fresh interpreter with -B *is* the rebuild).  scipy is absent in /venv and
@@ -165,12 +175,17 @@ class Check:
 _ROT = {}
 
 
-def api_call(f, order, given, first=(), positional=None):
+def api_call(f, order, given, first=(), positional=None, defaults=None):
     # one counter per callable and per set of given parameters, so that every call site alternates on its own
     key = (getattr(f, "__qualname__", repr(f)), tuple(sorted(given)))
     _ROT[key] = _ROT.get(key, 0) + 1
     pos = (_ROT[key] % 2 == 0) if positional is None else positional
     args, kw = list(first), dict(given)
+    if defaults and _ROT[key] % 3 == 0:
+        # a parameter whose requested value IS the default of the published signature is left out every third time
+        for name, dv in defaults.items():
+            if name in kw and type(kw[name]) is type(dv) and kw[name] == dv:
+                del kw[name]
     if pos:
         for name in order:
             if name not in kw:
